@@ -57,6 +57,7 @@ def run(ctx):
     rule3(ctx, prog, flows)
     rule4(ctx, prog, flows)
     rule5(ctx, prog, flows, effects)
+    rule6(ctx, prog, flows)
 
 
 # ---------------------------------------------------------------------------------------- R-C02-1
@@ -398,6 +399,12 @@ def rule5(ctx, prog, flows, effects):
             if t.callee and t.callee.short.split("::")[-1] in ("rev", "sort", "sort_by", "sort_by_key", "sorted", "sorted_by", "reverse", "dedup", "swap_remove"):
                 bad.append(t.callee.short)
         ctx.require(not bad, "R-C02-5", "read-order|" + q.short, "%s returns the per-pair list in stored order" % sfx.split("::")[-1], "%s reorders the per-pair list: %s" % (sfx, bad), loc_str(q.span))
+
+
+def rule6(ctx, prog, flows):
+    from graphrules import adjacency_entries_only_for_new_nodes
+
+    adjacency_entries_only_for_new_nodes(ctx, prog, flows, "R-C02-6", "so `%s` no longer agrees with the edge stores (successor / predecessor queries lose edges that get_all_edges still lists)")
 
 
 def run_once(ctx):
